@@ -42,6 +42,15 @@ def gillespie_part(chk, sis, entry):
     for a in ("Transmit", "Recover"):
         if res.coverage.get(a, (0, 0))[1] == 0:
             raise common.MachineryFailure("vacuous TLC run: action %s never taken" % a)
+    # implementation-shaped loop: incremental IS_links / infecteds bookkeeping, refinement of NetEpi
+    ic = netepi.netepi_constants(3 if tier == "quick" else 4, {1, 2}, {1}, {0, 1}, {0, 1}, sis)
+    ires = tlc.run_tlc("GillespieImpl", tlc.cfg_text(ic, view="View", invariants=["LinksExact", "InfectedsExact", "NoBadRemove", "StopsWithChain"],
+                                                    properties=["RefinesNetEpi"]), workers=16, timeout=3000)
+    chk.add_tlc("GillespieImpl (%s): bookkeeping invariant and refinement of NetEpi" % ("SIS" if sis else "SIR"), ires)
+    if ires.violation:
+        chk.violation("spec|GillespieImpl|" + ires.violation[:60], "TLC: " + ires.violation, {"constants": repr(ic)})
+    if ires.generated <= ires.distinct:
+        raise common.MachineryFailure("vacuous GillespieImpl run")
     for name, consts, weighted in replay:
         sg, eres = netepi.emit_graph(consts)
         chk.add_tlc("NetEpi emission %s" % name, eres)
